@@ -3,6 +3,7 @@ package props
 import (
 	"encoding/json"
 	"fmt"
+	"github.com/google/jsonschema-go/jsonschema"
 	"strings"
 
 	"verif/internal/fw"
@@ -120,6 +121,10 @@ func (p c18) Run(c *fw.Case) {
 	r := c.R
 	if c.Idx%12 == 7 {
 		p.unreferencedResources(c)
+		return
+	}
+	if c.Idx%12 == 1 {
+		p.decoratedRootOfRemote(c)
 		return
 	}
 	draft := gen.D2020
@@ -415,5 +420,90 @@ func (c18) unreferencedResources(c *fw.Case) {
 			}
 		}
 		c.Nontrivial(fmt.Sprintf("unreferenced-resource|%s|%s", defsKey, variant[len(id):]))
+	}
+}
+
+// decoratedRootOfRemote: the annotation-sensitive schema (unevaluated* over in-place applicators) lives in a Loader document;
+// the root only refers to it and is decorated with non-asserting content - among it subschemas that MENTION unevaluated*,
+// contains, dynamic anchors ... in positions that are never applied (unreferenced $defs entries, contentSchema, default,
+// examples, unknown keywords). Whatever a resolver derives from "does the document use keyword X" must not depend on them.
+func (c18) decoratedRootOfRemote(c *fw.Case) {
+	r := c.R
+	remote, array := gen.UnevalSchema(r)
+	rtext := gen.Text(remote)
+	ref := gen.Pick(r, []string{"http://h/u.json", "u.json", "/u.json"})
+	base := map[string]any{"$ref": ref}
+	if r.IntN(2) == 0 {
+		base = map[string]any{"allOf": []any{map[string]any{"$ref": ref}}}
+	}
+	all := gen.UInstances(array)
+	var insts []any
+	for _, i := range r.Perm(len(all))[:14] {
+		insts = append(insts, all[i])
+	}
+	compile := func(doc map[string]any) (*jsonschema.Resolved, string, error, bool) {
+		text := gen.Text(doc)
+		ld := &mapLoader{docs: map[string]string{"http://h/u.json": rtext}}
+		rs, err, ok := compileDoc(c, text, &jsonschema.ResolveOptions{BaseURI: "http://h/root.json", Loader: ld.load})
+		return rs, text, err, ok
+	}
+	rs0, baseText, err, ok := compile(base)
+	if !ok || err != nil {
+		return
+	}
+	mentions := []any{
+		map[string]any{"type": "array", "unevaluatedItems": false},
+		map[string]any{"unevaluatedProperties": map[string]any{"type": "null"}},
+		map[string]any{"contains": false, "minContains": json.Number("0")},
+		map[string]any{"$dynamicAnchor": "zz-decor", "$anchor": "zz-decor-a", "allOf": []any{map[string]any{"unevaluatedProperties": false}}},
+		map[string]any{"if": true, "then": map[string]any{"unevaluatedItems": true}, "dependentSchemas": map[string]any{"a": false}},
+	}
+	for k := 0; k < 4; k++ {
+		dec := gen.Clone(base).(map[string]any)
+		m := gen.Clone(gen.Pick(r, mentions))
+		var where string
+		switch r.IntN(5) {
+		case 0:
+			dec["$defs"] = map[string]any{"unused": m}
+			where = "$defs"
+		case 1:
+			dec["contentSchema"] = m
+			where = "contentSchema"
+		case 2:
+			dec["default"] = m
+			where = "default"
+		case 3:
+			dec["examples"] = []any{m}
+			where = "examples"
+		default:
+			dec["x-unknown"] = m
+			where = "unknown keyword"
+		}
+		rs1, dtext, err, ok := compile(dec)
+		if !ok {
+			return
+		}
+		if err != nil {
+			c.Violation("a root decorated with non-asserting content is refused: "+err.Error(), map[string]any{"schema": json.RawMessage(baseText), "decorated": json.RawMessage(dtext), "loader_document": json.RawMessage(rtext)})
+			return
+		}
+		for _, inst := range insts {
+			it := gen.Text(inst)
+			v0, ok := validate(c, rs0, baseText, gen.Canonical(it), it)
+			if !ok {
+				return
+			}
+			v1, ok := validate(c, rs1, dtext, gen.Canonical(it), it)
+			if !ok {
+				return
+			}
+			c.Eval(1)
+			if v0 != v1 {
+				c.Violation(fmt.Sprintf("non-asserting content in the root (%s) changed the verdict of a schema served by the Loader (without it valid=%v, with it valid=%v)", where, v0, v1),
+					map[string]any{"schema": json.RawMessage(baseText), "decorated": json.RawMessage(dtext), "loader_document": json.RawMessage(rtext), "instance": json.RawMessage(it)})
+				return
+			}
+		}
+		c.Nontrivial("decorated-root-of-remote|" + where)
 	}
 }
